@@ -171,7 +171,8 @@ class Sched:
         if t is None or _rt.get_ident() != t.ident:
             return False                 # set-up phase outside the scheduler: execute immediately
         kind = op[0]
-        if (kind == "sleep" and (op[2] or 0) < SHORT) or kind == "select":
+        if (kind == "sleep" and (op[2] or 0) < SHORT) or kind == "select" or (kind == "wait" and op[2] is not None and getattr(op[1], "flag", False)):
+            # (a timed wait on an event that is already set returns at once: a loop around it polls like a ticker)
             # an iteration of a ticker (or of a selector loop) ends here; IDLE_ITERS consecutive iterations without a write
             # anywhere make the thread idle (it found nothing to do, repeatedly)
             t.idle_iters = 0 if t.progress else t.idle_iters + 1
@@ -197,7 +198,7 @@ class Sched:
         t.sem.acquire()
         if self.killed:
             raise ThreadKilled()
-        if write and not ((kind == "sleep" and (op[2] or 0) < SHORT) or kind == "select"):
+        if write and not ((kind == "sleep" and (op[2] or 0) < SHORT) or kind == "select" or kind == "wait"):
             # the operation is executed now (it was only announced above): whoever went idle in between has work again
             self.wake_idle()
         return t.timed_out
@@ -253,7 +254,7 @@ class Sched:
         if not t.idle or t.pending is None:
             return False
         k = t.pending[0]
-        return (k == "sleep" and (t.pending[2] or 0) < SHORT) or k == "select"
+        return (k == "sleep" and (t.pending[2] or 0) < SHORT) or k == "select" or (k == "wait" and t.pending[2] is not None and getattr(t.pending[1], "flag", False))
 
     def candidates(self):
         go, timers = [], []
